@@ -84,6 +84,10 @@ class Gen:
         t = self.primary(d)
         if len(t) == 1 and (not (t[0][0].isalpha() or t[0][0] == "_") or t[0] in ("true", "false") or t[0][-1] in "\"'"):
             return t                      # literals take no postfix operator in C
+        if len(t) == 1 and r.random() < 0.08:
+            t = t + ["::", r.choice(IDS)]   # qualified name
+            if r.random() < 0.3:
+                t = ["::"] + t
         for _ in range(r.choice([0, 0, 0, 1, 1, 2, 3])):
             if d <= 0:
                 break
@@ -102,8 +106,6 @@ class Gen:
                 t = t + [r.choice([".", "->"]), r.choice(IDS)]
             elif k < 0.8:
                 t = t + [r.choice(["++", "--"])]
-            elif k < 0.85:
-                t = t + ["::", r.choice(IDS)]
             else:
                 break
         return t
@@ -571,14 +573,14 @@ def main(argv):
             run_programs(ck, hb, [unpct(o[2:]) for o in progs])
         ck.finish(META["level_text"])
     quick = ck.tier == "quick"
-    n = 900 if quick else 40000
+    n = 250 if quick else 40000
     hs = CORPUS + [gen_history(ck.rng) for _ in range(n)]
     ck.correspond(hb, db, hs, label="expr", ubsan_is_violation=UBRE, timeout=600,
                   nontrivial=lambda h, obs: any(o.startswith("ok ") for o in obs))
     if hb:
-        progs = S_CORPUS + [gen_program(ck.rng) for _ in range(500 if quick else 20000)]
+        progs = S_CORPUS + [gen_program(ck.rng) for _ in range(150 if quick else 20000)]
         run_programs(ck, hb, progs)
-        semantic_oracle(ck, hb, 400 if quick else 6000)
+        semantic_oracle(ck, hb, 250 if quick else 6000)
     ck.finish(META["level_text"])
 
 
